@@ -592,7 +592,7 @@ def gen_block(rng):
     block = rng.choices(['namespace', 'struct', 'class', 'section', 'sysinc', 'projinc', 'comment'],
                         [35, 15, 15, 17, 6, 6, 6])[0]
     case = {'kind': 'block', 'block': block, 'lines': gen_lines(rng),
-            'form': rng.choice(['list', 'list', 'string', 'pieces']),
+            'form': rng.choice(['list', 'list', 'string', 'pieces', 'headed', 'comment', 'nested']),
             'how': rng.choice(['ctor', 'ctor', 'setter', 'setter-bad', 'inplace'])}
     if block == 'namespace':
         case['ids'] = [rng.choice(NS_IDS) for _ in range(rng.choice([0, 1, 1, 2, 2, 3, 4]))]
@@ -621,7 +621,22 @@ def build_tb(lines, form):
         for line in lines:
             tb += line
         return tb
+    # contents whose rendering is more than their bare lines buffer
+    if form == 'headed' and len(lines) >= 2 and lines[0]:
+        return TextBlock(list(lines[1:]), header=lines[0])
+    if form == 'comment' and lines:
+        from dznpy.cpp_gen import Comment  # pylint: disable=import-outside-toplevel
+        return Comment(list(lines))
+    if form == 'nested' and len(lines) >= 2:
+        return TextBlock([TextBlock(lines[0]), [list(lines[1:-1]), TextBlock([lines[-1]])]])
     return TextBlock(list(lines))
+
+
+def rendered_lines(lines, form):
+    """The lines a block has to show for contents built by build_tb(lines, form)."""
+    if form == 'comment' and lines:
+        return ['//' if not line.strip() else '// ' + line for line in lines]
+    return list(lines)
 
 
 def check_block(case):
@@ -684,10 +699,16 @@ def check_block(case):
             text = str(obj)
             if str(obj) != text:
                 out(f'{block}-render-not-repeatable', {'text': text})
+            if how != 'inplace':
+                lines = rendered_lines(lines, case['form'])
+                bump(f'contents_form_{case["form"]}')
             check_scoped_block(case, lines, text, out, bump)
         elif block == 'section':
             spec = G.AccessSpecifier[case['access']]
-            text = str(G.AccessSpecifiedSection(spec, build_tb(lines, case['form'])))
+            # the statement promises unchanged contents for namespaces, structs and classes; a
+            # section is only given contents that are their own lines buffer
+            form = case['form'] if case['form'] not in ('headed', 'comment') else 'list'
+            text = str(G.AccessSpecifiedSection(spec, build_tb(lines, form)))
             check_section(case, lines, text, out, bump)
         elif block in ('sysinc', 'projinc'):
             incs = list(case['includes'])
@@ -766,6 +787,9 @@ def check_scoped_block(case, lines, text, out, bump):
         if got[1] != '{' or got[-1] != '};':
             out(f'{block}-close-mismatch', {'open': got[1], 'close': got[-1]})
         inner = got[2:-1]
+    if case.get('form') == 'comment':
+        # whether a comment keeps trailing white space is left open
+        inner, lines = [x.rstrip() for x in inner], [x.rstrip() for x in lines]
     if inner != lines:
         what = 'indentation' if [x.strip() for x in inner] == [x.strip() for x in lines] \
             else 'lines'
@@ -1258,6 +1282,7 @@ def main(tier: str) -> int:
     run.require('decl_def_pairs_compared', 'defs_empty', 'defs_nonempty', 'descriptions_function',
                 'descriptions_ctor', 'descriptions_dtor', 'blocks_namespace', 'blocks_struct',
                 'blocks_class', 'blocks_section', 'namespace_empty_ids', 'misc_comparisons',
+                'contents_form_comment', 'contents_form_headed', 'contents_form_nested',
                 'tus_compiled', 'classes_compiled', 'compiler_invocations_g++')
     for _item, res in run.pmap(_worker, items, chunksize=1, timeout=900):
         absorb_batch(run, res)
@@ -1266,7 +1291,8 @@ def main(tier: str) -> int:
              'defaults, const/&/*/template argument/root-namespace prefix, prefixes, cav, override, '
              "'= default/0/delete', contents, member initialiser lists, struct/class/no owner) "
              'rendered by the real classes and read back by an independent token scanner; random '
-             'namespace id lists (0-4) and TextBlock contents (0-6 lines, blank lines, nested '
+             'namespace id lists (0-4) and TextBlock contents (0-6 lines, blank lines, built from '
+             'a list, a string, pieces, nested blocks, with a header, or as a Comment; nested '
              f'braces) for the block classes; {CLASSES_PER_TU} random valid classes per translation '
              'unit through g++ -std=c++17 -fsyntax-only -Wall (thorough: every 10th also '
              'clang++-14); distinct = digest of the JSON description; non-trivial = at least one '
